@@ -99,8 +99,10 @@ def delegation(chk, rng, stats):
                     gscript.append(["send", rng.choice(sends)])
                 elif r < 0.8:
                     gscript.append(["next"])
-                elif r < 0.9:
+                elif r < 0.87:
                     gscript.append(["throw", rng.randrange(0, 9)])
+                elif r < 0.93:
+                    gscript.append(["throwq", rng.randrange(0, 9)])
                 else:
                     gscript.append(["close"])
                     break
